@@ -479,10 +479,31 @@ impl Driver {
         }
     }
 
+    /// Arm the multishot poll on the notifier eventfd if it is not armed, so that
+    /// a wake-up from another thread produces a completion.
+    fn push_notifier(&mut self) -> io::Result<()> {
+        if self.flags.contains(DriverFlags::NEED_PUSH_NOTIFIER) {
+            #[allow(clippy::useless_conversion)]
+            self.push_raw(
+                PollAdd::new(Fd(self.notifier.as_raw_fd()), libc::POLLIN as _)
+                    .multi(true)
+                    .build()
+                    .user_data(Self::NOTIFY)
+                    .into(),
+            )?;
+            self.flags.remove(DriverFlags::NEED_PUSH_NOTIFIER);
+        }
+        Ok(())
+    }
+
     pub fn flush(&mut self) -> bool {
+        // An external event loop waits on the ring after `flush` without calling
+        // `poll` first: the notifier has to be armed here as well, otherwise a
+        // wake-up arriving before the first `poll` never produces a completion.
+        let armed = self.push_notifier().is_ok();
         let succeed = self.submit_auto(Some(Duration::ZERO), false).is_ok();
         // If submission failed, return true to let the driver wake up immediately.
-        !succeed | self.notifier.reset()
+        !armed | !succeed | self.notifier.reset()
     }
 
     pub fn poll(&mut self, timeout: Option<Duration>) -> io::Result<()> {
@@ -496,17 +517,7 @@ impl Driver {
 
         let need_wait = !self.notifier.reset();
 
-        if self.flags.contains(DriverFlags::NEED_PUSH_NOTIFIER) {
-            #[allow(clippy::useless_conversion)]
-            self.push_raw(
-                PollAdd::new(Fd(self.notifier.as_raw_fd()), libc::POLLIN as _)
-                    .multi(true)
-                    .build()
-                    .user_data(Self::NOTIFY)
-                    .into(),
-            )?;
-            self.flags.remove(DriverFlags::NEED_PUSH_NOTIFIER);
-        }
+        self.push_notifier()?;
 
         #[cfg(compio_verif)]
         crate::verif::pause(crate::verif::Point::IourBeforeWait);
